@@ -88,6 +88,24 @@ def _normalize_host(host: str) -> str:
         return host
 
 
+def _close_transport(transport: asyncio.Transport) -> None:
+    """Close a transport that has been given up on.
+
+    close() only reports the loss (connection_lost) once buffered data has
+    been sent. If the peer no longer reads that never happens: the socket
+    stays open and the connection looks alive for as long as the kernel
+    keeps retrying. The unsent data is of no use any more, so drop it.
+    """
+    transport.close()
+    try:
+        unsent = transport.get_write_buffer_size()
+    except (AttributeError, NotImplementedError):
+        # Not every transport keeps a write buffer
+        return
+    if unsent:
+        transport.abort()
+
+
 class ConnectionReady(Exception):
     """Raised when a connection is ready to be retried."""
 
@@ -150,7 +168,7 @@ class InsecureHomeKitProtocol(asyncio.Protocol):
             # and any future requests will fail since the encryption counters
             # will be out of sync.
             self.transport.write_eof()
-            self.transport.close()
+            _close_transport(self.transport)
             if isinstance(ex, asyncio.TimeoutError):
                 timeout_expired = True
                 raise AccessoryDisconnectedError("Timeout while waiting for response") from ex
@@ -178,6 +196,7 @@ class InsecureHomeKitProtocol(asyncio.Protocol):
 
     def eof_received(self):
         self.close()
+        _close_transport(self.transport)
         return False
 
     def close(self):
@@ -579,7 +598,7 @@ class HomeKitConnection:
         and is_connected would see them and think we are still connected.
         """
         if self.transport:
-            self.transport.close()
+            _close_transport(self.transport)
         self.transport = None
         self.protocol = None
 
